@@ -426,6 +426,11 @@ class PathEval:
             r_ = int_range(m_.group(1)) if m_ else None
             if r_:
                 val = ('tryint', args[0], r_)
+        if val is None and last in ('is_ok', 'is_err') and len(args) == 1 and isinstance(args[0], tuple) and args[0][0] == 'tryint':
+            _, lin_, r_ = args[0]
+            val = ('and', ('cmp', 'Le', Lin(const=r_[0]), lin_), ('cmp', 'Le', lin_, Lin(const=r_[1])))
+            if last == 'is_err':
+                val = ('not', val)
         if val is None and last in ('unwrap', 'expect') and args and isinstance(args[0], tuple) and args[0][0] == 'tryint':
             # (panics otherwise: on the path that continues the value fits)
             _, lin_, r_ = args[0]
